@@ -350,6 +350,11 @@ def key_derivation_clause(ctx, func, sl):
                     elif isinstance(t, ast.BoolOp) and isinstance(t.op, ast.And) and all(
                             pseudo(v_) == 'regex' or match_expr('isinstance(%s, str)' % tmpl, v_) is not None for v_ in t.values):
                         pass        # not (regex and isinstance(template, str)): the complement of the substitution case
+                    elif isinstance(t, ast.BoolOp) and isinstance(t.op, ast.Or) and pol and all(
+                            isinstance(v_, ast.UnaryOp) and isinstance(v_.op, ast.Not) and
+                            (pseudo(v_.operand) == 'regex' or match_expr('isinstance(%s, str)' % tmpl, v_.operand) is not None)
+                            for v_ in t.values):
+                        pass        # the same complement written `not regex or not isinstance(template, str)`
                     else:
                         atoms.append((t, pol))
                 for t, pol in atoms:
@@ -364,7 +369,14 @@ def key_derivation_clause(ctx, func, sl):
                 ok = len(stores) == 1 and not other and p.term in (FALL, CONTINUE)
                 if ok:
                     v = stores[0].value
-                    if g_regex is True and g_str is True:
+                    if isinstance(v, ast.IfExp) and g_regex is None and g_str is None:
+                        # the two cases in one conditional expression
+                        tt_, tp_ = norm_guard(v.test, True)
+                        conj_ = tt_.values if isinstance(tt_, ast.BoolOp) and isinstance(tt_.op, ast.And) else []
+                        is_case = tp_ and len(conj_) == 2 and any(pseudo(c_) == 'regex' for c_ in conj_) and \
+                            any(match_expr('isinstance(%s, str)' % tmpl, c_) is not None for c_ in conj_)
+                        ok = is_case and any(match_expr(w_, v.body) is not None for w_ in want_sub) and u(v.orelse) == tmpl
+                    elif g_regex is True and g_str is True:
                         ok = any(match_expr(w_, v) is not None for w_ in want_sub)
                     else:
                         ok = u(v) == tmpl
